@@ -69,14 +69,37 @@ def subset_job(args):
     out = []
     rp = {"N": N, "measured_qubits": list(ql), "n": n, "connectivity": conn, "mode": mode, "job": [N, list(ql), n, conn, mode, seed]}
     prep = QuantumCircuit(N)
+    # the measured-qubit list in the container types a caller may use; a mutable container is OVERWRITTEN by the caller right after the circuits were generated
+    # (the circuits and everything the fitters derive from them must describe the list as it was when they were requested)
+    import numpy as _np
+    kind = ("list", "tuple", "ndarray", "ndarray-view", "list")[seed % 5]
+    if kind == "tuple":
+        marg = tuple(ql)
+    elif kind == "ndarray":
+        marg = _np.array(ql)
+    elif kind == "ndarray-view":
+        marg = _np.array(list(ql) + [0, 0])[:m]
+    else:
+        marg = list(ql)
+    rp["measured_qubits_given_as"] = kind
+
+    def overwrite():
+        other = list(ql[1:]) + list(ql[:1]) if m > 1 else [(ql[0] + 1) % N]          # another injective list of the same length
+        if isinstance(marg, list):
+            marg[:] = other
+        elif isinstance(marg, _np.ndarray):
+            marg[...] = _np.array(other)
+
     if mode == "fst":
-        circs = T.full_state_tomography_circuits(prep, conn, list(ql))
+        circs = T.full_state_tomography_circuits(prep, conn, marg)
+        overwrite()
     else:
         orb = rnd.randrange(docs.CLASS_COUNT[n])
         gid = G.orbit_table(n)[1][orb]
         rows = G.apply_layer_unsigned(n, [(x, z) for x, z, _ in G.graph_state_gens(n, G.adj_from_id(n, gid))], [rnd.randrange(6) for _ in range(n)])
         st = e2e.mk_stabilizer(n, [(x, z, rnd.randrange(2)) for x, z in rows])
-        circs = [T.stabilizer_measurement_circuit(prep, st, conn, list(ql))]
+        circs = [T.stabilizer_measurement_circuit(prep, st, conn, marg)]
+        overwrite()
     all_counts = []
     ros = []
     ok_asm = True
